@@ -22,7 +22,7 @@ from checks import validgen as vg
 from checks import validcomp as vc
 from checks.validcomp import COMP, NO_STATE, PRESENT, MULTI, OPER
 
-LEAN_TARGETS = ["LyModel.Props.C07", "LyModel.Props.C07Valdiff", "LyModel.Props.C07Completion"]
+LEAN_TARGETS = ["LyModel.Props.C07", "LyModel.Props.C07Valdiff", "LyModel.Props.C07Completion", "LyModel.Props.C07Fix"]
 AUDIT = "Audit/C07.lean"
 GENERATED = ["ValidConsts", "Consts"]
 HARNESS = "api_norm"
